@@ -148,6 +148,11 @@ pub fn dump_segment(seg: &SegmentReader, schema: &Schema, uid_field: &str) -> Re
                     IndexRecordOption::WithFreqs => 1,
                     IndexRecordOption::WithFreqsAndPositions => 2,
                 };
+                // (not for JSON fields: their text and non-text terms are encoded differently, a cursor cannot be moved
+                // from one kind to the other)
+                if matches!(ft, FieldType::JsonObject(_)) {
+                    continue;
+                }
                 match reused[slot].as_mut() {
                     None => reused[slot] = Some(inv.read_block_postings_from_terminfo(&ti, opt).or_fail("dump:read_block_postings")?),
                     Some(cursor) => inv.reset_block_postings_from_terminfo(&ti, cursor).or_fail("dump:reset_block_postings")?,
